@@ -155,6 +155,7 @@ static void party_main(World &W, size_t i)
 					{
 						Z s1; mpz_add_ui(s1, s, 1); Z c1; mpz_add_ui(c1, c, 1);
 						std::string v; v += nts.Verify(W.msgs[k], c, s) ? '1' : '0'; v += nts.Verify(W.msgs[k], c, s1) ? '1' : '0'; v += nts.Verify(W.msgs[k], c1, s) ? '1' : '0';
+						{ Z sq, cq, sm; mpz_add(sq, s, G.q); mpz_add(cq, c, G.q); mpz_sub(sm, s, G.q); v += nts.Verify(W.msgs[k], c, sq) ? '1' : '0'; v += nts.Verify(W.msgs[k], cq, s) ? '1' : '0'; v += nts.Verify(W.msgs[k], c, sm) ? '1' : '0'; }
 						po.sig_msgs.push_back(v);
 					}
 					else po.sig_msgs.push_back("-");
@@ -231,6 +232,9 @@ static void party_main(World &W, size_t i)
 					v += dss->Verify(W.msgs[k], r, sq) ? '1' : '0'; v += dss->Verify(W.msgs[k], rq, s) ? '1' : '0';
 					v += dss->Verify(W.msgs[k], zero, s) ? '1' : '0'; v += dss->Verify(W.msgs[k], r, zero) ? '1' : '0';
 					v += dss->Verify(W.msgs[k], G.q, s) ? '1' : '0'; v += dss->Verify(W.msgs[k], r, G.q) ? '1' : '0';
+					// negative representatives of the same residues: outside 0 < r, s < q
+					Z sm, rm, sn; mpz_sub(sm, s, G.q); mpz_sub(rm, r, G.q); mpz_neg(sn, s);
+					v += dss->Verify(W.msgs[k], r, sm) ? '1' : '0'; v += dss->Verify(W.msgs[k], rm, s) ? '1' : '0'; v += dss->Verify(W.msgs[k], r, sn) ? '1' : '0';
 					po.sig_msgs.push_back(v);
 				}
 				else po.sig_msgs.push_back("-");
